@@ -465,6 +465,20 @@ register_internal (GIRepository *repository,
       if (!load_dependencies_recurse (repository, typelib, error))
 	return NULL;
 
+      /* One of the dependencies may in turn depend on another version of
+       * this namespace, which is registered by now */
+      if (g_hash_table_lookup (repository->priv->typelibs, namespace))
+	{
+	  g_set_error (error, G_IREPOSITORY_ERROR,
+		       G_IREPOSITORY_ERROR_NAMESPACE_VERSION_CONFLICT,
+		       "Namespace '%s' version '%s' depends on a namespace that "
+		       "requires another version of '%s'",
+		       namespace,
+		       g_typelib_get_string (typelib, header->nsversion),
+		       namespace);
+	  return NULL;
+	}
+
       /* Check if we are transitioning from lazily loaded state; the lazy
        * table owns (and frees) its key, which also names the source the
        * lazily loaded typelib came from, so build a new one */
